@@ -92,12 +92,13 @@ def find_licenses_directory(root: Optional[StrPath] = None) -> Path:
 
 
 def _determine_license_path(path: StrPath) -> Path:
-    """Given a path FILE, return FILE.license if it exists, otherwise return
-    FILE.
+    """Given a path FILE, return FILE.license if that is an existing file,
+    otherwise return FILE.
     """
     license_path = Path(f"{path}.license")
     try:
-        exists = license_path.exists()
+        # A directory or a named pipe of that name is no .license file.
+        exists = license_path.is_file()
     except OSError:
         # FILE.license is no possible name if FILE itself is as long as a
         # file name may be.
